@@ -15,6 +15,13 @@ Theorem C04_close_capsule_exact :
     = RAppClosed code reason.
 Proof. exact connect_run_close_capsule. Qed.
 
+(* client side: the session stream is the one the response arrived on; whatever follows the response
+   HEADERS (in the same packet or not) is interpreted by the same runner, nothing is lost in between *)
+Theorem C04_client_side_after_response :
+  forall payload rest t, len payload <= max_parse_payload ->
+    client_established_run (frame_write (mkframe KHeaders payload None) ++ rest) t = connect_run 64 rest t.
+Proof. exact client_established_after_response. Qed.
+
 (* clean finish at a frame boundary = application close (0, "") *)
 Theorem C04_clean_finish :
   forall items f, forallb sitem_ok items = true ->
